@@ -27,6 +27,7 @@ INVS = ["TypeOK", "DepthBound", "ModBeforeStep", "OneTriggerPerChange", "TruePre
         "NothingLeftBehind", "DeadIsFinal", "Emit"]
 ALL = "{1,2,3,4,5,6,7,8,9,10,11,12,13,14,15,16,17}"
 CMD_KINDS = {"cmd", "set", "upd", "rem", "clr", "take", "drop"}
+MAX_REPORT = 8
 
 # exhaustive enumerations: (name, MaxStim, TopShapes, Shapes, MapShapes, Stimuli, InitMaps)
 EXH_QUICK = [
@@ -154,6 +155,19 @@ def replay_cases(out, reps, wd, tag, rng, what, stats, all_schedules=False):
     results = rp.run_cases("h_runtime", "handlers", send, wd, tag=tag, input_keys=None, strip=False)
     for c in cases:
         c.pop("model_acts")
+    # one replay file per distinct failure is enough: keep the first MAX_REPORT mismatching runs, count the rest
+    keep_c, keep_r, extra = [], [], 0
+    for c, r in zip(cases, results):
+        if r.get("panic") or rp.first_diff(c["acts"], r.get("obs", []), INPUT_KEYS) is not None:
+            if stats.get("mismatching", 0) >= MAX_REPORT:
+                extra += 1
+                continue
+            stats["mismatching"] = stats.get("mismatching", 0) + 1
+        keep_c.append(c)
+        keep_r.append(r)
+    if extra:
+        stats["further_mismatching_runs_not_reported"] = stats.get("further_mismatching_runs_not_reported", 0) + extra
+    cases, results = keep_c, keep_r
     st = rp.conformance(out, cases, results, INPUT_KEYS, p_validate, what)
     for k in ("cases", "steps", "conform", "drift", "rejected", "panics"):
         stats[k] = stats.get(k, 0) + st[k]
@@ -203,8 +217,12 @@ def run(tier, out):
         if sampled < 2 and reps:
             out.sample(compact(max(reps[:400], key=lambda x: sum(len(a["ev"]) for a in x["acts"]))))
             sampled += 1
+        if out.violations:
+            break       # the property is already refuted on the real code: no need to enumerate further
 
     n = 1500 if tier == "quick" else 40000
+    if out.violations:
+        n = 200
     c = tlc_cfg(SIM["MaxStim"], SIM["Top"], SIM["Shapes"], SIM["Map"], SIM["Stims"], SIM["Maps"])
     r = core.run_tlc("MC_Handlers", c, os.path.join(wd, "sim"), workers=1, simulate="num=%d" % n, timeout=2400,
                      extra=["-depth", "600", "-seed", str(core.seed())])
@@ -231,6 +249,7 @@ def run(tier, out):
             simulation_states_generated=sgen, behaviours_generated=behaviours, distinct_programs=len(programs),
             agent_runs=stats.get("cases", 0), stimuli_replayed=stats.get("steps", 0), events_compared=stats.get("events", 0),
             model_drift=stats.get("drift", 0),
+            mismatching_runs_not_reported=stats.get("further_mismatching_runs_not_reported", 0),
             action_coverage={a: {"distinct": d, "taken": t} for a, (d, t) in sorted(cov.items())},
             actions_never_taken=never, exhaustive=True,
             rule="a case = (program: body of every reached lifecycle slot, initial map, stimulus sequence, schedule); TLC "
